@@ -187,6 +187,12 @@ func (c *chaos) unanswered(what string) {
 		return
 	}
 	kind := strings.SplitN(what, " ", 2)[0]
+	if c.p.Redis && c.p.RefuseEvery > 0 {
+		// the store refuses commands in this run: outside the quantifier of the property, counted only
+		c.r.Count("requests_unanswered_while_the_store_refused_commands", 1)
+		return
+	}
+	what = fmt.Sprintf("%s (run seed %d procs %d redis %v)", what, c.p.Seed, c.p.Procs, c.p.Redis)
 	t0 := time.Now()
 	d1 := monitor.GoroutineDump("gmqtt/server")
 	canary := func() error {
